@@ -1018,6 +1018,22 @@ func accessibleFrom(info *types.Info, node ast.Node, wantPkg string) error {
 		if unexportError != nil {
 			return false
 		}
+		if lit, ok := node.(*ast.CompositeLit); ok && len(lit.Elts) > 0 {
+			if _, keyed := lit.Elts[0].(*ast.KeyValueExpr); !keyed {
+				if tv, ok := info.Types[lit]; ok && tv.Type != nil {
+					if st, ok := tv.Type.Underlying().(*types.Struct); ok {
+						// An unkeyed literal assigns every field, the unexported ones included.
+						for i := 0; i < st.NumFields(); i++ {
+							if f := st.Field(i); !f.Exported() && f.Pkg() != nil && f.Pkg().Path() != wantPkg {
+								unexportError = fmt.Errorf("sets unexported field %s of %s in an unkeyed literal", f.Name(), types.TypeString(tv.Type, nil))
+								return false
+							}
+						}
+					}
+				}
+			}
+			return true
+		}
 		ident, ok := node.(*ast.Ident)
 		if !ok {
 			return true
